@@ -28,11 +28,14 @@ type Op struct {
 
 // Sched is the schedule part of a plan.
 type Sched struct {
-	Seed     uint64 `json:"seed"`
-	Sticky   int    `json:"sticky"`
-	Preempts []int  `json:"preempts,omitempty"`
-	Choices  []int  `json:"choices,omitempty"`
-	Selects  []int  `json:"selects,omitempty"` // pinned choices among ready select cases
+	Seed   uint64 `json:"seed"`
+	Sticky int    `json:"sticky"`
+	// UnlockYield (percent): after releasing a mutex that others are waiting for, the releasing
+	// task gives way with this probability (its own PRNG stream, so pinned replays agree)
+	UnlockYield int   `json:"unlock_yield,omitempty"`
+	Preempts    []int `json:"preempts,omitempty"`
+	Choices     []int `json:"choices,omitempty"`
+	Selects     []int `json:"selects,omitempty"` // pinned choices among ready select cases
 	// PreemptFrac places preemptions relative to the length of the run: the runner first executes
 	// the plan without preemptions to count its steps N, then preempts at frac*N (two-pass
 	// placement; indices drawn blind mostly fall outside short runs). Replaced by Preempts
